@@ -50,9 +50,10 @@ type (
 	CCond  struct{ C, A, B CExpr }
 	CVar   struct{ Name, Type string }
 	CQuant struct {
-		Forall bool
-		Vars   []CVar
-		Body   CExpr
+		Forall   bool
+		Vars     []CVar
+		Body     CExpr
+		Triggers [][]CExpr
 	}
 )
 
@@ -214,9 +215,22 @@ func (p *cparser) expr() CExpr {
 			}
 			break
 		}
+		var trigs [][]CExpr
+		for p.isOp("{") {
+			p.pos++
+			var set []CExpr
+			for !p.isOp("}") {
+				set = append(set, p.expr())
+				if p.isOp(",") {
+					p.pos++
+				}
+			}
+			p.expect("}")
+			trigs = append(trigs, set)
+		}
 		p.expect("::")
 		body := p.expr()
-		return &CQuant{fa, vars, body}
+		return &CQuant{fa, vars, body, trigs}
 	}
 	return p.iff()
 }
